@@ -18,6 +18,7 @@
 //!   G  Z  R                             a header the parser rejects / EOF / read error
 //!   W   V:<ns>                          the next write fails / takes <ns>
 //!   T:<ns>                              advance virtual time
+//!   ~<step>                             the same step, but the runtime is not allowed to settle before the next step
 //! output line: <task log>|<completion log>|<live|done>
 //!   task log: lD lC lN@<ns> lF<ns> lW<ns> lS (listener)  d (connect attempt)  w<tx>:<id>@<ns> (request written)
 //!             x<tx>:<id> (write failed)  e<reason>@<ns> (ClientLoop::run returned)
@@ -279,6 +280,11 @@ async fn run_case(line: &str, initial: DecodeLevel) -> String {
     let mut tail: Option<Vec<u8>> = None;
 
     for step in script.split_whitespace() {
+        // a leading '~' means: do not let the runtime settle after this step (the next step happens "at the same time")
+        let (step, no_settle) = match step.strip_prefix('~') {
+            Some(rest) => (rest, true),
+            None => (step, false),
+        };
         let p: Vec<&str> = step.split(':').collect();
         match p[0] {
             "S" => {
@@ -404,6 +410,9 @@ async fn run_case(line: &str, initial: DecodeLevel) -> String {
             }
             "T" => tokio::time::advance(dur(p[1].parse().unwrap())).await,
             other => panic!("unknown step {other:?}"),
+        }
+        if no_settle {
+            continue;
         }
         settle().await;
         // the first part of a frame dies with its connection
